@@ -1,0 +1,42 @@
+//go:build verif
+
+package keeper
+
+// Contracts for the deductive checker in /verif (comment-only; compiled only with -tags verif).
+
+/*@
+alias CoParams github.com/haqq-network/haqq/x/coinomics/types.Params
+alias SdkCoin github.com/cosmos/cosmos-sdk/types.Coin
+
+// abstract view of the coinomics stores: params subspace + the two KV items (keys 0x01, 0x02).
+// An absent PrevBlockTS key reads as 0 (so co_prev_ts == 0 covers "absent"); an absent MaxSupply key reads
+// as Coin{params.MintDenom, 0}: co_max_set tells whether the key is present.
+world co_params CoParams
+world co_prev_ts int
+world co_max_set bool
+world co_max SdkCoin
+
+// ---- leaf store accessors: assumed contracts over the abstract store view
+func (Keeper).GetParams
+    trusted
+    ensures result == co_params
+func (Keeper).SetParams
+    trusted
+    modifies co_params
+    ensures co_params == params
+func (Keeper).GetPrevBlockTS
+    trusted
+    ensures result == co_prev_ts
+func (Keeper).SetPrevBlockTS
+    trusted
+    modifies co_prev_ts
+    ensures co_prev_ts == prevBlockTS
+func (Keeper).GetMaxSupply
+    trusted
+    ensures set: co_max_set ==> result == co_max
+    ensures unset: !co_max_set ==> result.Denom == co_params.MintDenom && result.Amount == 0
+func (Keeper).SetMaxSupply
+    trusted
+    modifies co_max_set, co_max
+    ensures co_max_set && co_max == maxSupply
+@*/
